@@ -1,4 +1,5 @@
 use crate::util::Ctx;
+pub mod c01;
 pub mod c03;
 pub mod c04;
 pub mod c05;
@@ -22,6 +23,7 @@ pub fn dispatch(ctx: &Ctx) -> i32 {
         "C05" => c05::run(ctx),
         "C06" => c06::run(ctx),
         "C07" => c07::run(ctx),
+        "C01" => c01::run(ctx),
         "C02" => sample_props::run(ctx, sample_props::Which::C02),
         "C08" => sample_props::run(ctx, sample_props::Which::C08),
         "C09" => sample_props::run(ctx, sample_props::Which::C09),
